@@ -38,7 +38,7 @@ def main(tier, seed):
             'override shapes (option, earlier source -> later source); (entry point, prefix, outcome, quote present) for '
             'byte strings; (first switch, outcome) for switch sequences.  states = distinct reference-map states '
             'reached; transitions = assignments parsed by the real parser; traces_validated_against_impl = histories '
-            'executed twice (long-lived solver object without executable path; freshly constructed object with an executable path whose basename differs from the solver name) with identical observation and '
+            'executed twice (long-lived solver object without executable path; freshly constructed object with an executable path whose basename differs from the solver name and with option echo enabled) with identical observation and '
             'compared with the reference fold.')
     chk.set('bounds', {
         'histories': 'all sequences of <= 2 assignments over the full alphabet (%d items) x non-decreasing source '
